@@ -53,7 +53,7 @@ LatestSettings(hs) == LET idx == { k \in 1..Len(hs) : hs[k][1] \in SettingsFrame
 FirstWU(hs) == LET idx == { k \in 1..Len(hs) : hs[k][1] \in WUFrames } IN
                IF idx = {} THEN 0 ELSE IncrOf(hs[CHOOSE k \in idx : \A j \in idx : k <= j][1])
 PrioEntry(e) == IF e[1] \in PrioFrames THEN << PrioOf(e[1]) >>
-                ELSE IF e[1] \in HeaderFrames /\ HasPrio(e[1]) THEN << <<e[2], 1, 0, 255>> >>
+                ELSE IF e[1] \in HeaderFrames /\ HasPrio(e[1]) THEN << HdrPrio(e[1], e[2]) >>
                 ELSE <<>>
 RECURSIVE AllPrios(_)
 AllPrios(hs) == IF hs = <<>> THEN <<>> ELSE PrioEntry(hs[1]) \o AllPrios(Tail(hs))
@@ -92,7 +92,7 @@ OnHeaders(f) == /\ Room /\ hasS /\ f \in HeaderFrames /\ nreq < MaxReq
                 /\ (HasPrio(f) => Len(P) < MaxPrio)
                 /\ LET sid == 2 * nreq + 1 IN
                    /\ H' = OrderOf(f)
-                   /\ P' = IF HasPrio(f) THEN Append(P, <<sid, 1, 0, 255>>) ELSE P
+                   /\ P' = IF HasPrio(f) THEN Append(P, HdrPrio(f, sid)) ELSE P
                    /\ hist' = Rec(f, sid)
                 /\ nreq' = nreq + 1
                 /\ fp' = AllN(S, WU, P', H')
